@@ -804,6 +804,9 @@ void ScriptEmitter::EmitCatch(sval_t val, const opval_t* try_begin_code_pos, sou
 
     ScriptCountManager countManager;
     ScriptEmitter emitter(countManager, *stateScript, info);
+    // a catch block inside a loop / switch may break or continue it
+    emitter.canBreak = canBreak;
+    emitter.canContinue = canContinue;
     emitter.EmitRoot(val);
 
     const sizeInfo_t& info = countManager.getSizeInfo();
@@ -1643,6 +1646,8 @@ void ScriptEmitter::EmitSwitch(sval_t val, sourceLocation_t sourceLoc)
     ScriptCountManager countManager;
     ScriptEmitter emitter(countManager, *stateScript, info, 5);
     emitter.canBreak = true;
+    // a switch inside a loop may continue it
+    emitter.canContinue = canContinue;
     emitter.switchDepth = 1;
     emitter.EmitRoot(val);
 
